@@ -13,6 +13,9 @@
  (E) precision configurations: (C) and (D) again in a child process with JAX_ENABLE_X64=1 (c18_worker.py): float64 bounds,
      candidates and losses whose magnitude is chosen relative to float32 (differences below its resolution at a large offset, values
      below its smallest subnormal, finite values above its maximum); same checker (losses in units of 2^-1074) and model replay.
+ (F) sparse / plateau losses with NaN: (C) and (D) again (evo: a sample of all rank-based strategies) with losses whose finite values all
+     tie inside a generation while other candidates are NaN (one finite candidate only, scripted finite/NaN masks with one level per
+     generation, a constant / 0-1 indicator outside a NaN region): nothing but the NaN handling separates a NaN candidate from the best.
 """
 import json, math, os
 from fractions import Fraction
@@ -267,6 +270,15 @@ class HostLoss:
         self.k0 = r.randint(1, 3)
         pool = [math.nan, math.nan, math.inf, 0.25, 0.5, 0.5, 1.0, 1.5, 2.0, -1.0, 3.0, 3.0]
         self.script = [[r.choice(pool) for _ in range(N)] for _ in range(64)]
+        # sparse / plateau kinds (family F); drawn after everything above, so the other kinds see the same draws as before
+        M = max(N, 64)
+        lv = Fraction(r.randint(4, 12), 4); self.levels = []
+        for _ in range(64):      # one level per generation: mostly improving, sometimes equal to / worse than the previous one
+            self.levels.append(float(lv)); lv += Fraction(r.choice([-4, -2, -2, -1, -1, -1, 0, 2]), 4)
+        pfin = r.choice([0.15, 0.3, 0.5])
+        self.mask = [[r.random() < pfin for _ in range(M)] for _ in range(64)]
+        self.one = [r.randrange(N) for _ in range(64)]
+        self.other = r.choice([math.nan, math.nan, "mixed"])
 
     def f(self, x, it):
         import numpy as onp
@@ -282,6 +294,15 @@ class HostLoss:
         elif k == "worsening": l = conv + 10.0 * it
         elif k == "scripted": l = onp.asarray(self.script[it % 64][:x.shape[0]])
         elif k == "neg-inf-once": l = onp.where((onp.arange(x.shape[0]) == 1) & (it == 1), -onp.inf, conv)
+        # sparse / plateau losses: inside one generation all finite losses tie (a 0/1 task-failure indicator, a constant reward for
+        # "rollout defined") while other candidates are NaN (the rollout diverged)
+        elif k == "plateau-nan-region": l = onp.where(x[:, 0] > self.thr, onp.nan, self.levels[0])
+        elif k == "indicator-nan-region": l = onp.where(x[:, 0] > self.thr, onp.nan, (x[:, -1] > self.c[-1]).astype(onp.float64))
+        elif k == "sparse-levels": l = onp.where(onp.asarray(self.mask[it % 64][:x.shape[0]]), self.levels[it % 64], onp.nan)
+        elif k == "single-finite":
+            l = onp.full(x.shape[0], onp.nan)
+            if self.other == "mixed": l[::3] = onp.inf
+            l[self.one[it % 64] % x.shape[0]] = self.levels[it % 64]
         else: raise ValueError(k)
         if (self.offset, self.scale) != (0.0, 1.0):
             with onp.errstate(all="ignore"): l = self.offset + self.scale * onp.asarray(l, dtype=onp.float64)
@@ -338,8 +359,11 @@ def explain_iter(lo, hi, pb, prev, X, L, best, bl):
     att = [j for j, row in enumerate(X) if clean[j] == float(bl) and [float(v) for v in row] == [float(v) for v in best]]
     if not att and not ([float(v) for v in best] == [float(v) for v in pb] and float(bl) == float(prev)):
         nanb = [j for j, row in enumerate(X) if [float(v) for v in row] == [float(v) for v in best] and math.isnan(float(L[j]))]
-        return "best-not-attained", f"reported best {list(map(float, best))} did not attain the reported loss {float(bl)!r}" + \
-               (" (it is a NaN-loss candidate)" if nanb and float(bl) != math.inf else "")
+        if nanb and float(bl) != math.inf:
+            fin = [j for j in range(len(clean)) if clean[j] == float(bl)]
+            return "best-is-nan-loss-candidate", f"reported best {list(map(float, best))} is candidate {nanb[0]} of the population, whose loss " \
+                   f"is NaN; the reported best loss {float(bl)!r} was attained by candidate(s) {fin[:8]} = {[list(map(float, X[j])) for j in fin[:2]]}"
+        return "best-not-attained", f"reported best {list(map(float, best))} did not attain the reported loss {float(bl)!r}"
     return "other", "check_iter = false"
 
 
@@ -544,7 +568,44 @@ def run_prec(chk, cases, hist_jobs, upd_jobs):
             judge_evo(chk, c, case, states, calls, x["clip"], which, UNIT64, xf, hist_jobs)
 
 
-# ---------------------------------------------------------------- judging one end-to-end run (families C, D, E)
+# ---------------------------------------------------------------- (F) sparse / plateau losses with NaN
+# Inside one generation every finite loss has the same value (plateau, 0/1 indicator, one finite candidate only) and the other
+# candidates are NaN: the only thing that separates a NaN candidate from the best one is the NaN handling itself (no finite loss
+# lies between them), and the NaN candidates come before / after the finite ones in population order.
+SPARSE_KINDS = ["single-finite", "sparse-levels", "plateau-nan-region", "indicator-nan-region"]
+
+
+def gen_sparse_cases(r, big):
+    out = []
+    strategies = r.sample(RANK_BASED, 5) if not big else [s_ for s_ in RANK_BASED for _ in range(3)]
+    for i, s_ in enumerate(strategies):
+        c = gen_evo(r, s_, big)
+        c.update(solver="evo", kind=SPARSE_KINDS[i % len(SPARSE_KINDS)] if i < 8 else r.choice(SPARSE_KINDS), steps=max(3, c["steps"]), family="sparse")
+        out.append(c)
+    for i in range(3 if not big else 16):
+        c = gen_cem(r, big)
+        c.update(solver="cem", kind=SPARSE_KINDS[i % len(SPARSE_KINDS)] if i < 8 else r.choice(SPARSE_KINDS), family="sparse")
+        out.append(c)
+    return out
+
+
+def sparse_feats(calls):
+    """what the generations of a run exercise: NaN next to finite losses that all tie, and where the NaN candidates stand"""
+    import numpy as onp
+    f = ["sparse-loss"]; seen = math.inf
+    for _, L in calls:
+        L = onp.asarray(L, dtype=onp.float64)
+        fin = onp.flatnonzero(onp.isfinite(L)); nan = onp.flatnonzero(onp.isnan(L))
+        if fin.size and nan.size and onp.unique(L[fin]).size == 1:
+            f.append("generation:nan-and-all-finite-losses-tied")
+            if fin.size == 1: f.append("generation:one-finite-loss-only")
+            if L[fin[0]] < seen:
+                f.append("improving-generation:nan-candidate-" + ("before" if nan[0] < fin[0] else "after") + "-first-finite-one")
+        if fin.size: seen = min(seen, float(L[fin].min()))
+    return sorted(set(f))
+
+
+# ---------------------------------------------------------------- judging one end-to-end run (families C, D, E, F)
 def judge_cem(chk, c, case, states, calls, ret, which, unit, xfeats, hist_jobs, upd_jobs):
     """which: label of the family in signatures ("cem" / "cem-x64"); unit: common denominator of the loss values"""
     import numpy as onp
@@ -716,7 +777,18 @@ def run(chk, replay=None):
         if rp: pcases = [eval(rp["case"]["gen"], dict(Fraction=Fraction))]
         run_prec(chk, pcases, hist_jobs, upd_jobs)
 
-    # ---- Coq: histories through the checker, steps through the model, evosax against the reference strategy
+    # ---- (F) sparse / plateau losses with NaN (same runners and checker as (C) and (D); generated after every other family)
+    if not rp:
+        for c in gen_sparse_cases(r, big):
+            case = dict(kind=c["solver"], gen=repr(c))
+            try:
+                if c["solver"] == "cem": states, calls, ret = run_cem(c)
+                else: states, calls, clip = run_evo(c)
+            except Exception as e:  # noqa
+                chk.violation(c["solver"] + "-raises", f"{c['solver']} raised on a sparse loss ({c['kind']}): {type(e).__name__}: {str(e)[:300]}", case); continue
+            if c["solver"] == "cem": judge_cem(chk, c, case, states, calls, ret, "cem", UNIT, sparse_feats(calls), hist_jobs, upd_jobs)
+            else: judge_evo(chk, c, case, states, calls, clip, "evo", UNIT, sparse_feats(calls), hist_jobs)
+
     if hist_jobs:
         res = lib.coq_eval_sharded("C18_hist", HEADER, "run_hist", [hist_term(lo, hi, [F(v) for v in pb], prev, iters, unit)
                                                                       for (_, _, lo, hi, pb, prev, iters, _, unit) in hist_jobs], per=4)
@@ -781,6 +853,10 @@ def run(chk, replay=None):
         "(E) the generators of (C) and (D) in a child process with jax_enable_x64: float64 bounds / candidates, losses offset + scale * "
         "shape(x) for every magnitude class of MAGNITUDES (plain, fine differences at offsets 1000 / -1e6 / 1, 1e-60, 1e39) as float64 "
         "(CEM; sometimes rounded to float32) or float32 (evo_step), cem_step plain and under jax.jit, cem, cem continued by a second cem. "
+        "(F) the generators of (C) and (D) (evo: five of the rank-based strategies per run, all of them in the thorough tier) with sparse / "
+        "plateau losses: per generation every finite loss has the same value and the other candidates are NaN (one finite candidate "
+        "at a scripted population index; a scripted finite/NaN mask with one level per generation, levels mostly decreasing; a constant "
+        "or a 0/1 indicator outside a NaN region of the box). "
         "A case is non-trivial when it has at least one of the listed features (every generated case names its loss mode / "
         "strategy; see `features` for NaN, ties at the elite boundary, fewer finite losses than elites, ties with the previous "
         "best); distinct by full case description.")
